@@ -248,4 +248,1091 @@ theorem dedupPlans_of_distinct (l : List QE) (h : ∀ s, outstanding l s ≤ 1) 
   rw [dedup_fold l [] (by intro s; simpa using h s)]
   simp
 
+/-! ### invariant A: structure -/
+
+structure InvA (st : St) : Prop where
+  poolCnt : ∀ s, cnt st.m.pool s = b2n (st.m.inPool s)
+  queueCnt : ∀ s, outstanding st.sh.queue s = b2n (st.sh.inQueue s)
+  excl : ∀ s, st.m.inPool s = true → st.sh.inQueue s = false
+  counters : ∀ s, st.sh.flags s = st.sh.done s + st.sh.dropped s + b2n (st.sh.inQueue s)
+  noErr : st.sh.err = false
+
+@[simp] theorem updPlan_site (p : Params) (pl : Plan) (r : Rat) (dc : Int) :
+    (updPlan p pl r dc).site = pl.site := by
+  unfold updPlan; split <;> rfl
+
+@[simp] theorem newPlan_site (p : Params) (r : Rec) (dc : Int) : (newPlan p r dc).site = r.site := rfl
+
+theorem invA_init : InvA {} := by
+  constructor <;> simp [cnt, outstanding, b2n]
+
+/-- a site that is not queued (and, if it comes from the pool, already taken out of it) is flagged -/
+theorem flagSite_invA (cls : Nat) (pl : Plan) (route : Route) (d first : Int) (st : St)
+    (hp : ∀ s, cnt st.m.pool s = b2n (st.m.inPool s))
+    (hq : ∀ s, outstanding st.sh.queue s = b2n (st.sh.inQueue s))
+    (hx : ∀ s, st.m.inPool s = true → st.sh.inQueue s = false)
+    (hc : ∀ s, st.sh.flags s = st.sh.done s + st.sh.dropped s + b2n (st.sh.inQueue s))
+    (he : st.sh.err = false)
+    (h1 : st.m.inPool pl.site = false) (h2 : st.sh.inQueue pl.site = false) :
+    InvA (flagSite cls pl route d first st) := by
+  constructor
+  · intro s; simpa [flagSite] using hp s
+  · intro s
+    simp only [flagSite, enqueue, outstanding_qInsert, hq s]
+    by_cases hs : s = pl.site
+    · subst hs; simp [h2]
+    · have : ¬ pl.site = s := fun h => hs h.symm
+      simp [this, setB_other _ _ hs]
+  · intro s hs
+    simp only [flagSite, enqueue] at hs ⊢
+    by_cases h : s = pl.site
+    · subst h; simp [h1] at hs
+    · simp [setB_other _ _ h, hx s hs]
+  · intro s
+    simp only [flagSite, enqueue]
+    by_cases h : s = pl.site
+    · subst h; simp [hc, h2]
+    · simp [setB_other _ _ h, bump_other _ h, hc s]
+  · simpa [flagSite, enqueue] using he
+
+theorem updMobile_invA (p : Params) (d dc : Int) (r : Rec) (st : St) (h : InvA st) :
+    InvA (updMobile p d dc r st) := by
+  obtain ⟨hp, hq, hx, hc, he⟩ := h
+  unfold updMobile
+  by_cases hin : st.m.inPool r.site = true
+  · simp only [hin, if_true]
+    have hqf := hx _ hin
+    rcases hpt : poolTake r.site st.m.pool with ⟨o, pool'⟩
+    cases o with
+    | none =>
+      have := (poolTake_spec r.site st.m.pool).2 pool' hpt
+      rw [hp, hin] at this; simp at this
+    | some pl =>
+      obtain ⟨hs, _, _, hcnt⟩ := (poolTake_spec r.site st.m.pool).1 pl pool' hpt
+      simp only []
+      have hp' : ∀ s, cnt pool' s = b2n (setB st.m.inPool r.site false s) := by
+        intro s
+        have := hcnt s; rw [hp s] at this
+        by_cases h : s = r.site
+        · subst h; simp [hs, hin] at this ⊢; omega
+        · have h' : ¬ pl.site = s := by rw [hs]; exact fun e => h e.symm
+          simp [h', setB_other _ _ h] at this ⊢; omega
+      split
+      · apply flagSite_invA
+        · exact hp'
+        · exact hq
+        · intro s hs'
+          by_cases h : s = r.site
+          · subst h; simp at hs'
+          · simp only [setB_other _ _ h] at hs'; exact hx s hs'
+        · exact hc
+        · exact he
+        · simp [hs]
+        · simpa [hs] using hqf
+      · split
+        · refine ⟨?_, hq, hx, hc, he⟩
+          intro s
+          simp only [cnt_poolInsert, updPlan_site]
+          have := hcnt s; rw [hp s] at this
+          omega
+        · refine ⟨hp', hq, ?_, hc, he⟩
+          intro s hs'
+          by_cases h : s = r.site
+          · subst h; simp at hs'
+          · simp only [setB_other _ _ h] at hs'; exact hx s hs'
+  · have hin' : st.m.inPool r.site = false := by simpa using hin
+    simp only [hin', Bool.false_eq_true, if_false]
+    by_cases hiq : st.sh.inQueue r.site = true
+    · simp only [hiq, if_true]
+      cases hfl : qFindLast r.site st.sh.queue with
+      | none =>
+        have := qFindLast_none hfl
+        rw [hq, hiq] at this; simp at this
+      | some pl =>
+        obtain ⟨e, _, rfl, hs⟩ := qFindLast_some hfl
+        simp only []
+        have hq2 : ∀ (c : Nat) s, outstanding (qInsert { cls := c, plan := updPlan p e.plan r.rate dc }
+              (qRemove r.site st.sh.queue)) s = b2n (st.sh.inQueue s) := by
+          intro c s
+          rw [outstanding_qInsert, outstanding_qRemove, updPlan_site, hs]
+          by_cases h : s = r.site
+          · subst h; simp [hiq]
+          · have : ¬ r.site = s := fun e => h e.symm
+            simp [h, this, hq s]
+        split
+        · exact ⟨hp, by intro s; simpa [enqueue] using hq2 _ s, hx, hc, he⟩
+        · split
+          · exact ⟨hp, by intro s; simpa [enqueue] using hq2 _ s, hx, hc, he⟩
+          · refine ⟨hp, ?_, ?_, ?_, he⟩
+            · intro s
+              simp only [outstanding_qRemove]
+              by_cases h : s = r.site
+              · subst h; simp
+              · simp [h, setB_other _ _ h, hq s]
+            · intro s hs'
+              by_cases h : s = r.site
+              · subst h; simp
+              · simp only [setB_other _ _ h]; exact hx s hs'
+            · intro s
+              by_cases h : s = r.site
+              · subst h; simp [hc, hiq]; omega
+              · simp [setB_other _ _ h, bump_other _ h, hc s]
+    · have hiq' : st.sh.inQueue r.site = false := by simpa using hiq
+      simp only [hiq', Bool.false_eq_true, if_false]
+      split
+      · exact flagSite_invA _ _ _ _ _ _ hp hq hx hc he (by simpa using hin') (by simpa using hiq')
+      · split
+        · refine ⟨?_, hq, ?_, hc, he⟩
+          · intro s
+            simp only [cnt_poolInsert, newPlan_site, hp s]
+            by_cases h : s = r.site
+            · subst h; simp [hin']
+            · have : ¬ r.site = s := fun e => h e.symm
+              simp [this, setB_other _ _ h]
+          · intro s hs'
+            by_cases h : s = r.site
+            · subst h; exact hiq'
+            · simp only [setB_other _ _ h] at hs'; exact hx s hs'
+        · split
+          · exact ⟨hp, hq, hx, hc, he⟩
+          · exact ⟨hp, hq, hx, hc, he⟩
+
+theorem updStationary_invA (p : Params) (d dc : Int) (r : Rec) (st : St) (h : InvA st) :
+    InvA (updStationary p d dc r st) := by
+  obtain ⟨hp, hq, hx, hc, he⟩ := h
+  unfold updStationary
+  by_cases hin : st.m.inPool r.site = true
+  · simp only [hin, if_true]
+    have hqf := hx _ hin
+    rcases hpt : poolTake r.site st.m.pool with ⟨o, pool'⟩
+    cases o with
+    | none =>
+      have := (poolTake_spec r.site st.m.pool).2 pool' hpt
+      rw [hp, hin] at this; simp at this
+    | some pl =>
+      obtain ⟨hs, _, _, hcnt⟩ := (poolTake_spec r.site st.m.pool).1 pl pool' hpt
+      simp only []
+      have hp' : ∀ s, cnt pool' s = b2n (setB st.m.inPool r.site false s) := by
+        intro s
+        have := hcnt s; rw [hp s] at this
+        by_cases h : s = r.site
+        · subst h; simp [hs, hin] at this ⊢; omega
+        · have h' : ¬ pl.site = s := by rw [hs]; exact fun e => h e.symm
+          simp [h', setB_other _ _ h] at this ⊢; omega
+      split
+      · apply flagSite_invA
+        · exact hp'
+        · exact hq
+        · intro s hs'
+          by_cases h : s = r.site
+          · subst h; simp at hs'
+          · simp only [setB_other _ _ h] at hs'; exact hx s hs'
+        · exact hc
+        · exact he
+        · simp [hs]
+        · simpa [hs] using hqf
+      · refine ⟨?_, hq, hx, hc, he⟩
+        intro s
+        simp only [cnt_poolInsert, updPlan_site]
+        have := hcnt s; rw [hp s] at this
+        omega
+  · have hin' : st.m.inPool r.site = false := by simpa using hin
+    simp only [hin', Bool.false_eq_true, if_false]
+    by_cases hiq : st.sh.inQueue r.site = true
+    · simp only [hiq, if_true]
+      cases hfl : qFindLast r.site st.sh.queue with
+      | none =>
+        have := qFindLast_none hfl
+        rw [hq, hiq] at this; simp at this
+      | some pl =>
+        obtain ⟨e, _, rfl, hs⟩ := qFindLast_some hfl
+        simp only []
+        have hq2 : ∀ (c : Nat) s, outstanding (qInsert { cls := c, plan := updPlan p e.plan r.rate dc }
+              (qRemove r.site st.sh.queue)) s = b2n (st.sh.inQueue s) := by
+          intro c s
+          rw [outstanding_qInsert, outstanding_qRemove, updPlan_site, hs]
+          by_cases h : s = r.site
+          · subst h; simp [hiq]
+          · have : ¬ r.site = s := fun e => h e.symm
+            simp [h, this, hq s]
+        split
+        · exact ⟨hp, by intro s; simpa [enqueue] using hq2 _ s, hx, hc, he⟩
+        · exact ⟨hp, by intro s; simpa [enqueue] using hq2 _ s, hx, hc, he⟩
+    · have hiq' : st.sh.inQueue r.site = false := by simpa using hiq
+      simp only [hiq', Bool.false_eq_true, if_false]
+      refine ⟨?_, hq, ?_, hc, he⟩
+      · intro s
+        simp only [cnt_poolInsert, newPlan_site, hp s]
+        by_cases h : s = r.site
+        · subst h; simp [hin']
+        · have : ¬ r.site = s := fun e => h e.symm
+          simp [this, setB_other _ _ h]
+      · intro s hs'
+        by_cases h : s = r.site
+        · subst h; exact hiq'
+        · simp only [setB_other _ _ h] at hs'; exact hx s hs'
+
+theorem processRec_invA (p : Params) (d dc : Int) (st : St) (r : Rec) (h : InvA st) :
+    InvA (processRec p d dc st r) := by
+  unfold processRec
+  split
+  · have h' : InvA { st with m := { st.m with released := st.m.released ++ [r] } } :=
+      ⟨h.poolCnt, h.queueCnt, h.excl, h.counters, h.noErr⟩
+    split
+    · exact updStationary_invA _ _ _ _ _ h'
+    · exact updMobile_invA _ _ _ _ _ h'
+  · exact h
+
+theorem foldRec_invA (p : Params) (d dc : Int) (rs : List Rec) (st : St) (h : InvA st) :
+    InvA (rs.foldl (processRec p d dc) st) := by
+  induction rs generalizing st with
+  | nil => exact h
+  | cons r t ih => exact ih _ (processRec_invA p d dc st r h)
+
+/-- loop invariant of the flagging loop: `cs` are the kept candidates still to be handled -/
+structure LoopA (st : St) (cs : List Plan) : Prop where
+  poolCnt : ∀ s, cnt st.m.pool s + cnt cs s = b2n (st.m.inPool s)
+  queueCnt : ∀ s, outstanding st.sh.queue s = b2n (st.sh.inQueue s)
+  excl : ∀ s, st.m.inPool s = true → st.sh.inQueue s = false
+  counters : ∀ s, st.sh.flags s = st.sh.done s + st.sh.dropped s + b2n (st.sh.inQueue s)
+  noErr : st.sh.err = false
+
+theorem flagOne_loopA (p : Params) (d first : Int) (st : St) (pl : Plan) (cs : List Plan)
+    (h : LoopA st (pl :: cs)) : LoopA (flagOne p d first st pl) cs := by
+  obtain ⟨hp, hq, hx, hc, he⟩ := h
+  have hpl := hp pl.site
+  rw [cnt_cons] at hpl
+  simp only [if_true] at hpl
+  have hin : st.m.inPool pl.site = true := by
+    rw [← b2n_eq_one]; have := b2n_le (st.m.inPool pl.site); omega
+  rw [hin] at hpl
+  simp only [b2n_true] at hpl
+  unfold flagOne
+  split
+  · refine ⟨?_, hq, hx, hc, he⟩
+    intro s
+    have := hp s
+    simp only [cnt_poolInsert]
+    rw [cnt_cons] at this
+    omega
+  · have hqf := hx _ hin
+    refine ⟨?_, ?_, ?_, ?_, ?_⟩
+    · intro s
+      have := hp s
+      rw [cnt_cons] at this
+      simp only [flagSite]
+      by_cases h : s = pl.site
+      · subst h; simp; omega
+      · have h' : ¬ pl.site = s := fun e => h e.symm
+        simp only [h', if_false] at this
+        simp only [setB_other _ _ h]; omega
+    · intro s
+      simp only [flagSite, enqueue, outstanding_qInsert, hq s]
+      by_cases hs : s = pl.site
+      · subst hs; simp [hqf]
+      · have : ¬ pl.site = s := fun h => hs h.symm
+        simp [this, setB_other _ _ hs]
+    · intro s hs
+      simp only [flagSite, enqueue] at hs ⊢
+      by_cases h : s = pl.site
+      · subst h; simp at hs
+      · simp only [setB_other _ _ h] at hs ⊢; exact hx s hs
+    · intro s
+      simp only [flagSite, enqueue]
+      by_cases h : s = pl.site
+      · subst h; simp [hc, hqf]
+      · simp [setB_other _ _ h, bump_other _ h, hc s]
+    · simpa [flagSite, enqueue] using he
+
+theorem foldFlag_loopA (p : Params) (d first : Int) (cs : List Plan) (st : St) (h : LoopA st cs) :
+    LoopA (cs.foldl (flagOne p d first) st) [] := by
+  induction cs generalizing st with
+  | nil => exact h
+  | cons pl t ih => exact ih _ (flagOne_loopA p d first st pl t h)
+
+theorem decideNow_invA (p : Params) (d first : Int) (st : St) (h : InvA st) :
+    InvA (decideNow p d first st) := by
+  obtain ⟨hp, hq, hx, hc, he⟩ := h
+  unfold decideNow
+  simp only []
+  generalize hk : keepCount p st.m.pool.length st.m.count = k
+  have hl : LoopA { st with m := { st.m with pool := [], count := 0, firstCand := none, inPool := (st.m.pool.drop k).foldl (fun f pl => setB f pl.site false) st.m.inPool } }
+      (st.m.pool.take k) := by
+    refine ⟨?_, hq, ?_, hc, he⟩
+    · intro s
+      simp only [cnt_nil, Nat.zero_add, unflag_spec]
+      have h1 := cnt_take_drop st.m.pool k s
+      have h2 := hp s
+      have h3 := b2n_le (st.m.inPool s)
+      by_cases hz : cnt (st.m.pool.drop k) s = 0
+      · simp [hz]; omega
+      · simp only [hz, if_false, b2n_false]; omega
+    · intro s hs
+      simp only [unflag_spec] at hs
+      by_cases hz : cnt (st.m.pool.drop k) s = 0
+      · simp only [hz, if_true] at hs; exact hx s hs
+      · simp [hz] at hs
+  have := foldFlag_loopA p d first _ _ hl
+  exact ⟨by intro s; simpa using this.poolCnt s, this.queueCnt, this.excl, this.counters, this.noErr⟩
+
+theorem updateCandidates_invA (p : Params) (d : Int) (st : St) (h : InvA st) :
+    InvA (updateCandidates p d st) := by
+  unfold updateCandidates
+  split
+  · split
+    · exact h
+    · split
+      · exact decideNow_invA _ _ _ _ ⟨h.poolCnt, h.queueCnt, h.excl, h.counters, h.noErr⟩
+      · exact ⟨h.poolCnt, h.queueCnt, h.excl, h.counters, h.noErr⟩
+  · split
+    · exact decideNow_invA _ _ _ _ h
+    · exact h
+
+theorem dailyUpdate_invA (p : Params) (d : Int) (st : St) (h : InvA st) :
+    InvA (dailyUpdate p d st) := by
+  unfold dailyUpdate
+  simp only []
+  apply updateCandidates_invA
+  apply foldRec_invA
+  exact ⟨h.poolCnt, h.queueCnt, h.excl, h.counters, h.noErr⟩
+
+/-! #### the follow-up day -/
+
+structure LoopQ (inPool : Nat → Bool) (sh : Shared) (cs : List Plan) : Prop where
+  queueCnt : ∀ s, outstanding sh.queue s + cnt cs s = b2n (sh.inQueue s)
+  excl : ∀ s, inPool s = true → sh.inQueue s = false
+  counters : ∀ s, sh.flags s = sh.done s + sh.dropped s + b2n (sh.inQueue s)
+  noErr : sh.err = false
+
+theorem applyOutcome_loopQ (inPool : Nat → Bool) (d : Int) (outs : Nat → Outcome) (sh : Shared)
+    (pl : Plan) (cs : List Plan) (h : LoopQ inPool sh (pl :: cs)) :
+    LoopQ inPool (applyOutcome d outs sh pl) cs := by
+  obtain ⟨hq, hx, hc, he⟩ := h
+  have hpl := hq pl.site
+  rw [cnt_cons] at hpl
+  simp only [if_true] at hpl
+  have hin : sh.inQueue pl.site = true := by
+    rw [← b2n_eq_one]; have := b2n_le (sh.inQueue pl.site); omega
+  rw [hin] at hpl
+  simp only [b2n_true] at hpl
+  have hq' : ∀ (e : QE), e.plan.site = pl.site →
+      ∀ s, outstanding (qInsert e sh.queue) s + cnt cs s = b2n (sh.inQueue s) := by
+    intro e hes s
+    have := hq s
+    rw [cnt_cons] at this
+    rw [outstanding_qInsert, hes]
+    omega
+  unfold applyOutcome
+  simp only []
+  split
+  · refine ⟨?_, ?_, ?_, he⟩
+    · intro s
+      have := hq s
+      rw [cnt_cons] at this
+      by_cases h : s = pl.site
+      · subst h; simp; omega
+      · have h' : ¬ pl.site = s := fun e => h e.symm
+        simp only [h', if_false] at this
+        simp only [setB_other _ _ h]; omega
+    · intro s hs
+      by_cases h : s = pl.site
+      · subst h; simp
+      · simp only [setB_other _ _ h]; exact hx s hs
+    · intro s
+      by_cases h : s = pl.site
+      · subst h; simp [hc, hin]; omega
+      · simp [setB_other _ _ h, bump_other _ h, hc s]
+  · exact ⟨by intro s; simpa [enqueue] using hq' _ rfl s, hx, hc, he⟩
+  · exact ⟨by intro s; simpa [enqueue] using hq' _ rfl s, hx, hc, he⟩
+
+theorem foldOutcome_loopQ (inPool : Nat → Bool) (d : Int) (outs : Nat → Outcome) (cs : List Plan)
+    (sh : Shared) (h : LoopQ inPool sh cs) :
+    LoopQ inPool (cs.foldl (applyOutcome d outs) sh) [] := by
+  induction cs generalizing sh with
+  | nil => exact h
+  | cons pl t ih => exact ih _ (applyOutcome_loopQ inPool d outs sh pl t h)
+
+theorem planned_eq (cap : Nat) (sh : Shared) (hq : ∀ s, outstanding sh.queue s ≤ 1) :
+    planned cap sh = (sh.queue.take cap).map (·.plan) := by
+  unfold planned
+  apply dedupPlans_of_distinct
+  intro s
+  have := outstanding_take_drop sh.queue cap s
+  have := hq s
+  omega
+
+theorem followUpDay_invA (cap : Nat) (d : Int) (outs : Nat → Outcome) (st : St) (h : InvA st) :
+    InvA { st with sh := followUpDay cap d outs st.sh } := by
+  obtain ⟨hp, hq, hx, hc, he⟩ := h
+  have hle : ∀ s, outstanding st.sh.queue s ≤ 1 := by
+    intro s; rw [hq s]; exact b2n_le _
+  unfold followUpDay
+  rw [planned_eq cap st.sh hle]
+  have hl : LoopQ st.m.inPool { st.sh with queue := st.sh.queue.drop cap }
+      ((st.sh.queue.take cap).map (·.plan)) := by
+    refine ⟨?_, hx, hc, he⟩
+    intro s
+    rw [cnt_map_plan]
+    have := outstanding_take_drop st.sh.queue cap s
+    simp only
+    rw [← hq s]; omega
+  have := foldOutcome_loopQ st.m.inPool d outs _ _ hl
+  exact ⟨hp, by intro s; simpa using this.queueCnt s, this.excl, this.counters, this.noErr⟩
+
+theorem step1_invA (p : Params) (cap : Nat) (st : St) (op : Op1) (h : InvA st) :
+    InvA (step1 p cap st op) := by
+  cases op with
+  | screen s r d => exact ⟨h.poolCnt, h.queueCnt, h.excl, h.counters, h.noErr⟩
+  | update d => exact dailyUpdate_invA p d st h
+  | fuDay d outs => exact followUpDay_invA cap d outs st h
+  | tag s d => exact ⟨h.poolCnt, h.queueCnt, h.excl, h.counters, h.noErr⟩
+
+theorem foldl_invA (p : Params) (cap : Nat) (ops : List Op1) (st : St) (h : InvA st) :
+    InvA (ops.foldl (step1 p cap) st) := by
+  induction ops generalizing st with
+  | nil => exact h
+  | cons op t ih => exact ih _ (step1_invA p cap st op h)
+
+theorem run1_invA (p : Params) (cap : Nat) (ops : List Op1) : InvA (run1 p cap ops) :=
+  foldl_invA p cap ops {} invA_init
+
+/-! ### invariant B: the pool is sorted by decreasing rate -/
+
+@[simp] theorem flagSite_pool (cls : Nat) (pl : Plan) (route : Route) (d first : Int) (st : St) :
+    (flagSite cls pl route d first st).m.pool = st.m.pool := rfl
+
+theorem updMobile_sorted (p : Params) (d dc : Int) (r : Rec) (st : St) (h : Sorted st.m.pool) :
+    Sorted (updMobile p d dc r st).m.pool := by
+  unfold updMobile
+  split
+  · rcases hpt : poolTake r.site st.m.pool with ⟨o, pool'⟩
+    cases o with
+    | none => exact h
+    | some pl =>
+      obtain ⟨_, _, hsub, _⟩ := (poolTake_spec r.site st.m.pool).1 pl pool' hpt
+      have h' := sorted_sublist hsub h
+      simp only []
+      split
+      · exact h'
+      · split
+        · exact sorted_poolInsert _ _ h'
+        · exact h'
+  · split
+    · cases qFindLast r.site st.sh.queue with
+      | none => exact h
+      | some pl =>
+        simp only []
+        split
+        · exact h
+        · split <;> exact h
+    · split
+      · exact h
+      · split
+        · exact sorted_poolInsert _ _ h
+        · split <;> exact h
+
+theorem updStationary_sorted (p : Params) (d dc : Int) (r : Rec) (st : St) (h : Sorted st.m.pool) :
+    Sorted (updStationary p d dc r st).m.pool := by
+  unfold updStationary
+  split
+  · rcases hpt : poolTake r.site st.m.pool with ⟨o, pool'⟩
+    cases o with
+    | none => exact h
+    | some pl =>
+      obtain ⟨_, _, hsub, _⟩ := (poolTake_spec r.site st.m.pool).1 pl pool' hpt
+      have h' := sorted_sublist hsub h
+      simp only []
+      split
+      · exact h'
+      · exact sorted_poolInsert _ _ h'
+  · split
+    · cases qFindLast r.site st.sh.queue with
+      | none => exact h
+      | some pl =>
+        simp only []
+        split <;> exact h
+    · exact sorted_poolInsert _ _ h
+
+theorem processRec_sorted (p : Params) (d dc : Int) (st : St) (r : Rec) (h : Sorted st.m.pool) :
+    Sorted (processRec p d dc st r).m.pool := by
+  unfold processRec
+  split
+  · split
+    · exact updStationary_sorted _ _ _ _ _ h
+    · exact updMobile_sorted _ _ _ _ _ h
+  · exact h
+
+theorem foldRec_sorted (p : Params) (d dc : Int) (rs : List Rec) (st : St) (h : Sorted st.m.pool) :
+    Sorted (rs.foldl (processRec p d dc) st).m.pool := by
+  induction rs generalizing st with
+  | nil => exact h
+  | cons r t ih => exact ih _ (processRec_sorted p d dc st r h)
+
+theorem flagOne_sorted (p : Params) (d first : Int) (st : St) (pl : Plan) (h : Sorted st.m.pool) :
+    Sorted (flagOne p d first st pl).m.pool := by
+  unfold flagOne
+  split
+  · exact sorted_poolInsert _ _ h
+  · exact h
+
+theorem foldFlag_sorted (p : Params) (d first : Int) (cs : List Plan) (st : St) (h : Sorted st.m.pool) :
+    Sorted (cs.foldl (flagOne p d first) st).m.pool := by
+  induction cs generalizing st with
+  | nil => exact h
+  | cons pl t ih => exact ih _ (flagOne_sorted p d first st pl h)
+
+theorem decideNow_sorted (p : Params) (d first : Int) (st : St) : Sorted (decideNow p d first st).m.pool := by
+  unfold decideNow
+  exact foldFlag_sorted _ _ _ _ _ List.Pairwise.nil
+
+theorem updateCandidates_sorted (p : Params) (d : Int) (st : St) (h : Sorted st.m.pool) :
+    Sorted (updateCandidates p d st).m.pool := by
+  unfold updateCandidates
+  split
+  · split
+    · exact h
+    · split
+      · exact decideNow_sorted _ _ _ _
+      · exact h
+  · split
+    · exact decideNow_sorted _ _ _ _
+    · exact h
+
+theorem dailyUpdate_sorted (p : Params) (d : Int) (st : St) (h : Sorted st.m.pool) :
+    Sorted (dailyUpdate p d st).m.pool := by
+  unfold dailyUpdate
+  exact updateCandidates_sorted _ _ _ (foldRec_sorted _ _ _ _ _ h)
+
+theorem step1_sorted (p : Params) (cap : Nat) (st : St) (op : Op1) (h : Sorted st.m.pool) :
+    Sorted (step1 p cap st op).m.pool := by
+  cases op with
+  | screen s r d => exact h
+  | update d => exact dailyUpdate_sorted p d st h
+  | fuDay d outs => exact h
+  | tag s d => exact h
+
+theorem foldl_sorted (p : Params) (cap : Nat) (ops : List Op1) (st : St) (h : Sorted st.m.pool) :
+    Sorted (ops.foldl (step1 p cap) st).m.pool := by
+  induction ops generalizing st with
+  | nil => exact h
+  | cons op t ih => exact ih _ (step1_sorted p cap st op h)
+
+theorem run1_sorted (p : Params) (cap : Nat) (ops : List Op1) : Sorted (run1 p cap ops).m.pool :=
+  foldl_sorted p cap ops {} List.Pairwise.nil
+
+/-! ### invariant C: provenance, dates, routing -/
+
+/-- a plan stems from released records of its site, the newest not before the reporting delay -/
+def PlanOK (p : Params) (rel : List Rec) (today : Int) (pl : Plan) : Prop :=
+  pl.rates ≠ [] ∧ (∀ r ∈ pl.rates, ∃ rc ∈ rel, rc.site = pl.site ∧ rc.rate = r) ∧
+  pl.latest + p.rd ≤ today
+
+/-- the routing condition behind a flag event -/
+def RouteOK (p : Params) (f : FlagEv) : Prop :=
+  match f.route with
+  | .instant => (∃ t, p.inst = some t ∧ t ≤ f.rate) ∧ f.day = f.recDate + p.rd ∧ f.first = f.day ∧
+      f.tagAtFlag ≤ f.recDate
+  | .pool => f.first + p.delay ≤ f.day ∧
+      (if p.stationary then (p.sthr ≤ f.rate ∨ (p.lthr ≠ 0 ∧ f.rateLong ≠ 0 ∧ p.lthr ≤ f.rateLong))
+       else p.thr ≤ f.rate)
+
+def GoodFlag (p : Params) (rel : List Rec) (today : Int) (f : FlagEv) : Prop :=
+  f.recDate + p.rd ≤ f.day ∧ f.day ≤ today ∧ f.rates ≠ [] ∧
+  (∀ r ∈ f.rates, ∃ rc ∈ rel, rc.site = f.site ∧ rc.rate = r ∧ rc.date + p.rd ≤ f.day) ∧
+  RouteOK p f
+
+structure InvC (p : Params) (st : St) : Prop where
+  poolOK : ∀ pl ∈ st.m.pool, PlanOK p st.m.released st.m.today pl
+  queueOK : ∀ e ∈ st.sh.queue, PlanOK p st.m.released st.m.today e.plan
+  poolThr : p.stationary = false → ∀ pl ∈ st.m.pool, p.thr ≤ pl.rate
+  evsOK : ∀ f ∈ st.m.evs, GoodFlag p st.m.released st.m.today f
+  relOK : ∀ rc ∈ st.m.released, rc.date + p.rd ≤ st.m.today
+  firstOK : ∀ fc, st.m.firstCand = some fc → fc ≤ st.m.today
+
+theorem invC_init (p : Params) : InvC p {} := by
+  constructor <;> simp
+
+theorem planOK_mono {p : Params} {rel rel' : List Rec} {t t' : Int} {pl : Plan}
+    (h : PlanOK p rel t pl) (hr : ∀ x ∈ rel, x ∈ rel') (ht : t ≤ t') : PlanOK p rel' t' pl := by
+  obtain ⟨a, b, c⟩ := h
+  refine ⟨a, ?_, by omega⟩
+  intro r hr'
+  obtain ⟨rc, h1, h2⟩ := b r hr'
+  exact ⟨rc, hr rc h1, h2⟩
+
+theorem goodFlag_mono {p : Params} {rel rel' : List Rec} {t t' : Int} {f : FlagEv}
+    (h : GoodFlag p rel t f) (hr : ∀ x ∈ rel, x ∈ rel') (ht : t ≤ t') : GoodFlag p rel' t' f := by
+  obtain ⟨a, b, c, d, e⟩ := h
+  refine ⟨a, by omega, c, ?_, e⟩
+  intro r hr'
+  obtain ⟨rc, h1, h2⟩ := d r hr'
+  exact ⟨rc, hr rc h1, h2⟩
+
+theorem planOK_upd {p : Params} {rel : List Rec} {today dc : Int} {pl : Plan} {r : Rec}
+    (h : PlanOK p rel today pl) (hr : r ∈ rel) (hs : pl.site = r.site) (hd : dc + p.rd ≤ today) :
+    PlanOK p rel today (updPlan p pl r.rate dc) := by
+  obtain ⟨a, b, c⟩ := h
+  unfold updPlan PlanOK
+  split
+  all_goals
+    refine ⟨by simp, ?_, hd⟩
+    intro x hx
+    simp only [List.mem_append, List.mem_singleton] at hx
+    rcases hx with hx | rfl
+    · exact b x hx
+    · exact ⟨r, hr, hs.symm, rfl⟩
+
+theorem planOK_new {p : Params} {rel : List Rec} {today dc : Int} {r : Rec}
+    (hr : r ∈ rel) (hd : dc + p.rd ≤ today) : PlanOK p rel today (newPlan p r dc) := by
+  refine ⟨by simp [newPlan], ?_, hd⟩
+  intro x hx
+  simp only [newPlan, List.mem_singleton] at hx
+  subst hx
+  exact ⟨r, hr, rfl, rfl⟩
+
+theorem goodFlag_instant {p : Params} {rel : List Rec} {d dc tag : Int} {pl : Plan}
+    (h : PlanOK p rel d pl) (hrel : ∀ rc ∈ rel, rc.date + p.rd ≤ d) (hi : geInst p pl.rate = true)
+    (hl : pl.latest = dc) (hd : dc + p.rd = d) (ht : tag ≤ dc) :
+    GoodFlag p rel d (mkEv pl .instant d d tag) := by
+  obtain ⟨a, b, c⟩ := h
+  refine ⟨by simp [mkEv]; omega, by simp [mkEv], by simpa [mkEv] using a, ?_, ?_⟩
+  · intro r hr
+    obtain ⟨rc, h1, h2, h3⟩ := b r (by simpa [mkEv] using hr)
+    exact ⟨rc, h1, by simpa [mkEv] using h2, h3, by simpa [mkEv] using hrel rc h1⟩
+  · unfold RouteOK
+    simp only [mkEv]
+    refine ⟨?_, by omega, trivial, by omega⟩
+    unfold geInst at hi
+    cases hinst : p.inst with
+    | none => simp [hinst] at hi
+    | some t => exact ⟨t, rfl, by simpa [hinst] using hi⟩
+
+/-- hypotheses under which one released record is processed on day `d` -/
+structure RelCtx (p : Params) (d dc : Int) (r : Rec) (st : St) : Prop where
+  mem : r ∈ st.m.released
+  today : st.m.today = d
+  hdc : dc + p.rd = d
+  fresh : st.sh.latestTag r.site ≤ dc
+
+theorem flagSite_invC_instant (p : Params) (d dc : Int) (st : St) (pl : Plan)
+    (hpool : ∀ x ∈ st.m.pool, PlanOK p st.m.released st.m.today x)
+    (hqueue : ∀ e ∈ st.sh.queue, PlanOK p st.m.released st.m.today e.plan)
+    (hthr : p.stationary = false → ∀ x ∈ st.m.pool, p.thr ≤ x.rate)
+    (hevs : ∀ f ∈ st.m.evs, GoodFlag p st.m.released st.m.today f)
+    (hrel : ∀ rc ∈ st.m.released, rc.date + p.rd ≤ st.m.today)
+    (hfirst : ∀ fc, st.m.firstCand = some fc → fc ≤ st.m.today)
+    (hpl : PlanOK p st.m.released st.m.today pl) (htoday : st.m.today = d)
+    (hi : geInst p pl.rate = true) (hl : pl.latest = dc) (hd : dc + p.rd = d)
+    (ht : st.sh.latestTag pl.site ≤ dc) :
+    InvC p (flagSite 2 pl .instant d d st) := by
+  refine ⟨hpool, ?_, hthr, ?_, hrel, hfirst⟩
+  · intro e he
+    simp only [flagSite, enqueue, mem_qInsert] at he
+    rcases he with rfl | he
+    · exact hpl
+    · exact hqueue e he
+  · intro f hf
+    simp only [flagSite, List.mem_append, List.mem_singleton] at hf
+    rcases hf with hf | rfl
+    · exact hevs f hf
+    · simp only [flagSite]
+      rw [htoday] at hpl hrel ⊢
+      exact goodFlag_instant hpl hrel hi hl hd ht
+
+theorem updMobile_invC (p : Params) (d dc : Int) (r : Rec) (st : St) (h : InvC p st)
+    (c : RelCtx p d dc r st) (hmob : p.stationary = false) : InvC p (updMobile p d dc r st) := by
+  obtain ⟨hpool, hqueue, hthr, hevs, hrel, hfirst⟩ := h
+  obtain ⟨hmem, htoday, hdc, hfresh⟩ := c
+  have hdle : dc + p.rd ≤ st.m.today := by omega
+  unfold updMobile
+  split
+  · rcases hpt : poolTake r.site st.m.pool with ⟨o, pool'⟩
+    cases o with
+    | none => exact ⟨hpool, hqueue, hthr, hevs, hrel, hfirst⟩
+    | some pl =>
+      obtain ⟨hs, hplmem, hsub, _⟩ := (poolTake_spec r.site st.m.pool).1 pl pool' hpt
+      have hpool' : ∀ x ∈ pool', PlanOK p st.m.released st.m.today x :=
+        fun x hx => hpool x (hsub.subset hx)
+      have hthr' : p.stationary = false → ∀ x ∈ pool', p.thr ≤ x.rate :=
+        fun hst x hx => hthr hst x (hsub.subset hx)
+      have hpl' := planOK_upd (hpool pl hplmem) hmem hs hdle
+      simp only []
+      split
+      · rename_i hi
+        refine flagSite_invC_instant p d dc _ _ ?_ ?_ ?_ ?_ ?_ ?_ ?_ ?_ ?_ ?_ ?_ ?_
+        · exact hpool'
+        · exact hqueue
+        · exact hthr'
+        · exact hevs
+        · exact hrel
+        · exact hfirst
+        · exact hpl'
+        · exact htoday
+        · exact hi
+        · unfold updPlan; split <;> rfl
+        · exact hdc
+        · simpa [hs] using hfresh
+      · split
+        · rename_i hge
+          refine ⟨?_, hqueue, ?_, hevs, hrel, hfirst⟩
+          · intro x hx
+            rcases (mem_poolInsert _ _ _).mp hx with rfl | hx
+            · exact hpl'
+            · exact hpool' x hx
+          · intro hst x hx
+            rcases (mem_poolInsert _ _ _).mp hx with rfl | hx
+            · exact hge
+            · exact hthr' hst x hx
+        · exact ⟨hpool', hqueue, hthr', hevs, hrel, hfirst⟩
+  · split
+    · cases hfl : qFindLast r.site st.sh.queue with
+      | none => exact ⟨hpool, hqueue, hthr, hevs, hrel, hfirst⟩
+      | some pl =>
+        obtain ⟨e, hemem, rfl, hs⟩ := qFindLast_some hfl
+        have hpl' := planOK_upd (hqueue e hemem) hmem hs hdle
+        have hq' : ∀ (cl : Nat), ∀ x ∈ qInsert { cls := cl, plan := updPlan p e.plan r.rate dc }
+            (qRemove r.site st.sh.queue), PlanOK p st.m.released st.m.today x.plan := by
+          intro cl x hx
+          rcases (mem_qInsert _ _ _).mp hx with rfl | hx
+          · exact hpl'
+          · exact hqueue x (mem_qRemove hx).1
+        simp only []
+        split
+        · exact ⟨hpool, by simpa [enqueue] using hq' _, hthr, hevs, hrel, hfirst⟩
+        · split
+          · exact ⟨hpool, by simpa [enqueue] using hq' _, hthr, hevs, hrel, hfirst⟩
+          · refine ⟨hpool, ?_, hthr, hevs, hrel, hfirst⟩
+            intro x hx
+            exact hqueue x (mem_qRemove hx).1
+    · split
+      · rename_i hi
+        refine flagSite_invC_instant p d dc _ _ hpool hqueue hthr hevs hrel hfirst
+          (planOK_new hmem hdle) htoday ?_ rfl hdc (by simpa using hfresh)
+        simpa [newPlan, hmob] using hi
+      · split
+        · rename_i hge
+          refine ⟨?_, hqueue, ?_, hevs, hrel, hfirst⟩
+          · intro x hx
+            rcases (mem_poolInsert _ _ _).mp hx with rfl | hx
+            · exact planOK_new hmem hdle
+            · exact hpool x hx
+          · intro hst x hx
+            rcases (mem_poolInsert _ _ _).mp hx with rfl | hx
+            · simpa [newPlan, hst] using hge.2
+            · exact hthr hst x hx
+        · split
+          · exact ⟨hpool, hqueue, hthr, hevs, hrel, hfirst⟩
+          · exact ⟨hpool, hqueue, hthr, hevs, hrel, hfirst⟩
+
+theorem updStationary_invC (p : Params) (d dc : Int) (r : Rec) (st : St) (h : InvC p st)
+    (c : RelCtx p d dc r st) (hstat : p.stationary = true) : InvC p (updStationary p d dc r st) := by
+  obtain ⟨hpool, hqueue, _, hevs, hrel, hfirst⟩ := h
+  obtain ⟨hmem, htoday, hdc, hfresh⟩ := c
+  have hdle : dc + p.rd ≤ st.m.today := by omega
+  have hv : ∀ (l : List Plan), p.stationary = false → ∀ x ∈ l, p.thr ≤ x.rate := by
+    intro l hst; simp [hstat] at hst
+  unfold updStationary
+  split
+  · rcases hpt : poolTake r.site st.m.pool with ⟨o, pool'⟩
+    cases o with
+    | none => exact ⟨hpool, hqueue, hv _, hevs, hrel, hfirst⟩
+    | some pl =>
+      obtain ⟨hs, hplmem, hsub, _⟩ := (poolTake_spec r.site st.m.pool).1 pl pool' hpt
+      have hpool' : ∀ x ∈ pool', PlanOK p st.m.released st.m.today x :=
+        fun x hx => hpool x (hsub.subset hx)
+      have hpl' := planOK_upd (hpool pl hplmem) hmem hs hdle
+      simp only []
+      split
+      · rename_i hi
+        refine flagSite_invC_instant p d dc _ _ ?_ ?_ ?_ ?_ ?_ ?_ ?_ ?_ ?_ ?_ ?_ ?_
+        · exact hpool'
+        · exact hqueue
+        · exact hv _
+        · exact hevs
+        · exact hrel
+        · exact hfirst
+        · exact hpl'
+        · exact htoday
+        · exact hi
+        · unfold updPlan; split <;> rfl
+        · exact hdc
+        · simpa [hs] using hfresh
+      · refine ⟨?_, hqueue, hv _, hevs, hrel, hfirst⟩
+        intro x hx
+        rcases (mem_poolInsert _ _ _).mp hx with rfl | hx
+        · exact hpl'
+        · exact hpool' x hx
+  · split
+    · cases hfl : qFindLast r.site st.sh.queue with
+      | none => exact ⟨hpool, hqueue, hv _, hevs, hrel, hfirst⟩
+      | some pl =>
+        obtain ⟨e, hemem, rfl, hs⟩ := qFindLast_some hfl
+        have hpl' := planOK_upd (hqueue e hemem) hmem hs hdle
+        have hq' : ∀ (cl : Nat), ∀ x ∈ qInsert { cls := cl, plan := updPlan p e.plan r.rate dc }
+            (qRemove r.site st.sh.queue), PlanOK p st.m.released st.m.today x.plan := by
+          intro cl x hx
+          rcases (mem_qInsert _ _ _).mp hx with rfl | hx
+          · exact hpl'
+          · exact hqueue x (mem_qRemove hx).1
+        simp only []
+        split
+        · exact ⟨hpool, by simpa [enqueue] using hq' _, hv _, hevs, hrel, hfirst⟩
+        · exact ⟨hpool, by simpa [enqueue] using hq' _, hv _, hevs, hrel, hfirst⟩
+    · refine ⟨?_, hqueue, hv _, hevs, hrel, hfirst⟩
+      intro x hx
+      rcases (mem_poolInsert _ _ _).mp hx with rfl | hx
+      · exact planOK_new hmem hdle
+      · exact hpool x hx
+
+@[simp] theorem updMobile_today (p : Params) (d dc : Int) (r : Rec) (st : St) :
+    (updMobile p d dc r st).m.today = st.m.today := by
+  unfold updMobile
+  repeat' (first | split | simp only [])
+  all_goals rfl
+
+@[simp] theorem updStationary_today (p : Params) (d dc : Int) (r : Rec) (st : St) :
+    (updStationary p d dc r st).m.today = st.m.today := by
+  unfold updStationary
+  repeat' (first | split | simp only [])
+  all_goals rfl
+
+@[simp] theorem processRec_today (p : Params) (d dc : Int) (st : St) (r : Rec) :
+    (processRec p d dc st r).m.today = st.m.today := by
+  unfold processRec
+  split
+  · split <;> simp
+  · rfl
+
+theorem processRec_invC (p : Params) (d dc : Int) (st : St) (r : Rec) (h : InvC p st)
+    (htoday : st.m.today = d) (hdc : dc + p.rd = d) (hr : r.date = dc) :
+    InvC p (processRec p d dc st r) := by
+  unfold processRec
+  split
+  · rename_i hfresh
+    have hsub : ∀ x ∈ st.m.released, x ∈ st.m.released ++ [r] := fun x hx => List.mem_append_left _ hx
+    have h' : InvC p { st with m := { st.m with released := st.m.released ++ [r] } } := by
+      refine ⟨?_, ?_, h.poolThr, ?_, ?_, h.firstOK⟩
+      · intro pl hpl; exact planOK_mono (h.poolOK pl hpl) hsub (Int.le_refl _)
+      · intro e he; exact planOK_mono (h.queueOK e he) hsub (Int.le_refl _)
+      · intro f hf; exact goodFlag_mono (h.evsOK f hf) hsub (Int.le_refl _)
+      · intro rc hrc
+        simp only [List.mem_append, List.mem_singleton] at hrc
+        rcases hrc with hrc | rfl
+        · exact h.relOK rc hrc
+        · simp only; omega
+    have c : RelCtx p d dc r { st with m := { st.m with released := st.m.released ++ [r] } } :=
+      ⟨by simp, htoday, hdc, hfresh⟩
+    split
+    · rename_i hs; exact updStationary_invC _ _ _ _ _ h' c hs
+    · rename_i hs; exact updMobile_invC _ _ _ _ _ h' c (by simpa using hs)
+  · exact h
+
+theorem foldRec_invC (p : Params) (d dc : Int) (rs : List Rec) (st : St) (h : InvC p st)
+    (htoday : st.m.today = d) (hdc : dc + p.rd = d) (hr : ∀ r ∈ rs, r.date = dc) :
+    InvC p (rs.foldl (processRec p d dc) st) ∧ (rs.foldl (processRec p d dc) st).m.today = d := by
+  induction rs generalizing st with
+  | nil => exact ⟨h, htoday⟩
+  | cons r t ih =>
+    exact ih _ (processRec_invC p d dc st r h htoday hdc (hr r (by simp))) (by simpa using htoday)
+      (fun x hx => hr x (by simp [hx]))
+
+/-- loop invariant of the flagging loop for invariant C -/
+structure LoopC (p : Params) (d first : Int) (st : St) (cs : List Plan) : Prop where
+  inv : InvC p st
+  today : st.m.today = d
+  csOK : ∀ pl ∈ cs, PlanOK p st.m.released st.m.today pl
+  csThr : p.stationary = false → ∀ pl ∈ cs, p.thr ≤ pl.rate
+  due : first + p.delay ≤ d
+
+theorem flagOne_loopC (p : Params) (d first : Int) (st : St) (pl : Plan) (cs : List Plan)
+    (h : LoopC p d first st (pl :: cs)) : LoopC p d first (flagOne p d first st pl) cs := by
+  obtain ⟨⟨hpool, hqueue, hthr, hevs, hrel, hfirst⟩, htoday, hcs, hcthr, hdue⟩ := h
+  have hpl := hcs pl (by simp)
+  unfold flagOne
+  split
+  · rename_i hc
+    refine ⟨⟨?_, hqueue, ?_, hevs, hrel, hfirst⟩, htoday, fun x hx => hcs x (by simp [hx]),
+      fun hs x hx => hcthr hs x (by simp [hx]), hdue⟩
+    · intro x hx
+      rcases (mem_poolInsert _ _ _).mp hx with rfl | hx
+      · exact hpl
+      · exact hpool x hx
+    · intro hs; simp [hs] at hc
+  · rename_i hc
+    refine ⟨⟨hpool, ?_, hthr, ?_, hrel, hfirst⟩, htoday, fun x hx => hcs x (by simp [hx]),
+      fun hs x hx => hcthr hs x (by simp [hx]), hdue⟩
+    · intro e he
+      simp only [flagSite, enqueue, mem_qInsert] at he
+      rcases he with rfl | he
+      · exact hpl
+      · exact hqueue e he
+    · intro f hf
+      simp only [flagSite, List.mem_append, List.mem_singleton] at hf
+      rcases hf with hf | rfl
+      · exact hevs f hf
+      · obtain ⟨a, b, c⟩ := hpl
+        simp only [flagSite]
+        refine ⟨by simp only [mkEv]; omega, by simp only [mkEv]; omega, by simpa [mkEv] using a, ?_, ?_⟩
+        · intro r hr
+          obtain ⟨rc, h1, h2, h3⟩ := b r (by simpa [mkEv] using hr)
+          refine ⟨rc, h1, by simpa [mkEv] using h2, h3, ?_⟩
+          have := hrel rc h1
+          simp only [mkEv]; omega
+        · unfold RouteOK
+          simp only [mkEv]
+          refine ⟨hdue, ?_⟩
+          cases hst : p.stationary with
+          | false => simpa using hcthr hst pl (by simp)
+          | true =>
+            simp only [if_true]
+            by_cases h1 : p.sthr ≤ pl.rate
+            · exact Or.inl h1
+            · right
+              have h2 : followLong p pl = true := by
+                by_cases h2 : followLong p pl = true
+                · exact h2
+                · exfalso; apply hc; exact ⟨hst, by simp [followShort, h1], h2⟩
+              simp [followLong] at h2
+              exact ⟨h2.1.1, h2.1.2, h2.2⟩
+
+theorem foldFlag_loopC (p : Params) (d first : Int) (cs : List Plan) (st : St)
+    (h : LoopC p d first st cs) : LoopC p d first (cs.foldl (flagOne p d first) st) [] := by
+  induction cs generalizing st with
+  | nil => exact h
+  | cons pl t ih => exact ih _ (flagOne_loopC p d first st pl t h)
+
+theorem decideNow_invC (p : Params) (d first : Int) (st : St) (h : InvC p st)
+    (htoday : st.m.today = d) (hdue : first + p.delay ≤ d) : InvC p (decideNow p d first st) := by
+  unfold decideNow
+  simp only []
+  apply (foldFlag_loopC p d first _ _ _).inv
+  refine ⟨⟨by intro pl hpl; simp at hpl, h.queueOK, by intro _ pl hpl; simp at hpl, h.evsOK, h.relOK,
+    by intro fc hfc; simp at hfc⟩, htoday, ?_, ?_, hdue⟩
+  · intro pl hpl; exact h.poolOK pl (List.mem_of_mem_take hpl)
+  · intro hs pl hpl; exact h.poolThr hs pl (List.mem_of_mem_take hpl)
+
+theorem updateCandidates_invC (p : Params) (d : Int) (st : St) (h : InvC p st)
+    (htoday : st.m.today = d) : InvC p (updateCandidates p d st) := by
+  unfold updateCandidates
+  split
+  · split
+    · exact h
+    · split
+      · rename_i hd
+        exact decideNow_invC p d d st h htoday (by omega)
+      · exact ⟨h.poolOK, h.queueOK, h.poolThr, h.evsOK, h.relOK, by
+          intro fc hfc; have hfc' : some d = some fc := hfc; cases hfc'; exact Int.le_of_eq htoday.symm⟩
+  · split
+    · rename_i fc _ hd
+      exact decideNow_invC p d fc st h htoday (by omega)
+    · exact h
+
+theorem dailyUpdate_invC (p : Params) (d : Int) (st : St) (h : InvC p st) (hd : st.m.today ≤ d) :
+    InvC p (dailyUpdate p d st) := by
+  unfold dailyUpdate
+  simp only []
+  have hsub : ∀ x ∈ st.m.released, x ∈ st.m.released := fun x hx => hx
+  have h0 : InvC p { st with m := { st.m with records := st.m.records.filter (fun r => r.date ≠ d - p.rd),
+                                              today := d, nflags := 0 } } := by
+    refine ⟨?_, ?_, h.poolThr, ?_, ?_, ?_⟩
+    · intro pl hpl; exact planOK_mono (h.poolOK pl hpl) hsub hd
+    · intro e he; exact planOK_mono (h.queueOK e he) hsub hd
+    · intro f hf; exact goodFlag_mono (h.evsOK f hf) hsub hd
+    · intro rc hrc; have := h.relOK rc hrc; simp only; omega
+    · intro fc hfc; have := h.firstOK fc hfc; simp only; omega
+  have := foldRec_invC p d (d - p.rd) (st.m.records.filter (fun r => r.date = d - p.rd)) _ h0 rfl
+    (by omega) (by intro r hr; simpa using (List.mem_filter.mp hr).2)
+  exact updateCandidates_invC p d _ this.1 this.2
+
+theorem applyOutcome_queueOK (p : Params) (rel : List Rec) (today d : Int) (outs : Nat → Outcome)
+    (sh : Shared) (pl : Plan) (hq : ∀ e ∈ sh.queue, PlanOK p rel today e.plan)
+    (hpl : PlanOK p rel today pl) :
+    ∀ e ∈ (applyOutcome d outs sh pl).queue, PlanOK p rel today e.plan := by
+  unfold applyOutcome
+  simp only []
+  split
+  · exact hq
+  · intro e he
+    simp only [enqueue, mem_qInsert] at he
+    rcases he with rfl | he
+    · exact hpl
+    · exact hq e he
+  · intro e he
+    simp only [enqueue, mem_qInsert] at he
+    rcases he with rfl | he
+    · exact hpl
+    · exact hq e he
+
+theorem foldOutcome_queueOK (p : Params) (rel : List Rec) (today d : Int) (outs : Nat → Outcome)
+    (cs : List Plan) (sh : Shared) (hq : ∀ e ∈ sh.queue, PlanOK p rel today e.plan)
+    (hcs : ∀ pl ∈ cs, PlanOK p rel today pl) :
+    ∀ e ∈ (cs.foldl (applyOutcome d outs) sh).queue, PlanOK p rel today e.plan := by
+  induction cs generalizing sh with
+  | nil => exact hq
+  | cons pl t ih =>
+    exact ih _ (applyOutcome_queueOK p rel today d outs sh pl hq (hcs pl (by simp)))
+      (fun x hx => hcs x (by simp [hx]))
+
+theorem mem_dedup_fold (l : List QE) (acc : List Plan) (P : Plan → Prop)
+    (hacc : ∀ x ∈ acc, P x) (hl : ∀ e ∈ l, P e.plan) :
+    ∀ x ∈ l.foldl (fun acc e =>
+      if acc.any (fun a => a.site = e.plan.site) then
+        acc.map (fun a => if a.site = e.plan.site then e.plan else a)
+      else acc ++ [e.plan]) acc, P x := by
+  induction l generalizing acc with
+  | nil => exact hacc
+  | cons e t ih =>
+    simp only [List.foldl_cons]
+    apply ih
+    · split
+      · intro x hx
+        rw [List.mem_map] at hx
+        obtain ⟨a, ha, rfl⟩ := hx
+        split
+        · exact hl e (by simp)
+        · exact hacc a ha
+      · intro x hx
+        simp only [List.mem_append, List.mem_singleton] at hx
+        rcases hx with hx | rfl
+        · exact hacc x hx
+        · exact hl e (by simp)
+    · intro x hx; exact hl x (by simp [hx])
+
+theorem followUpDay_invC (p : Params) (cap : Nat) (d : Int) (outs : Nat → Outcome) (st : St)
+    (h : InvC p st) : InvC p { st with sh := followUpDay cap d outs st.sh } := by
+  refine ⟨h.poolOK, ?_, h.poolThr, h.evsOK, h.relOK, h.firstOK⟩
+  unfold followUpDay
+  apply foldOutcome_queueOK
+  · intro e he; exact h.queueOK e (List.mem_of_mem_drop he)
+  · unfold planned dedupPlans
+    apply mem_dedup_fold
+    · simp
+    · intro e he; exact h.queueOK e (List.mem_of_mem_take he)
+
+/-- update days never go backwards -/
+def WellDated (p : Params) (cap : Nat) : St → List Op1 → Prop
+  | _, [] => True
+  | st, op :: t =>
+    (match op with
+     | .update d => st.m.today ≤ d
+     | _ => True) ∧ WellDated p cap (step1 p cap st op) t
+
+theorem step1_invC (p : Params) (cap : Nat) (st : St) (op : Op1) (h : InvC p st)
+    (hw : match op with | .update d => st.m.today ≤ d | _ => True) : InvC p (step1 p cap st op) := by
+  cases op with
+  | screen s r d => exact ⟨h.poolOK, h.queueOK, h.poolThr, h.evsOK, h.relOK, h.firstOK⟩
+  | update d => exact dailyUpdate_invC p d st h hw
+  | fuDay d outs => exact followUpDay_invC p cap d outs st h
+  | tag s d => exact ⟨h.poolOK, h.queueOK, h.poolThr, h.evsOK, h.relOK, h.firstOK⟩
+
+theorem foldl_invC (p : Params) (cap : Nat) (ops : List Op1) (st : St) (h : InvC p st)
+    (hw : WellDated p cap st ops) : InvC p (ops.foldl (step1 p cap) st) := by
+  induction ops generalizing st with
+  | nil => exact h
+  | cons op t ih => exact ih _ (step1_invC p cap st op h hw.1) hw.2
+
+theorem run1_invC (p : Params) (cap : Nat) (ops : List Op1) (hw : WellDated p cap {} ops) :
+    InvC p (run1 p cap ops) :=
+  foldl_invC p cap ops {} (invC_init p) hw
+
 end LdarModel.FollowUp
